@@ -9,6 +9,10 @@ import (
 
 // postDominatesSuccess: every path from instruction `from` to a normal return passes through `must`.
 func everyPathPasses(fn *ssa.Function, from ssa.Instruction, must ssa.Instruction) bool {
+	// a call deferred on every path before `from` runs on every exit after it (also on panic)
+	if _, isDefer := must.(*ssa.Defer); isDefer && dominatesInstr(must, from) {
+		return true
+	}
 	if from.Block() == must.Block() {
 		if instrIndex(from) < instrIndex(must) {
 			return true
@@ -265,13 +269,19 @@ func init() {
 
 		// revert-compare
 		if rt := syncFn("revertTask"); rt != nil {
-			rh := findSite(rt, "revertHead")
-			if rh == nil {
+			// every call of revertHead made by revertTask, directly or through a same-package helper
+			rhs := p.deepSites(rt, nameMatcher("revertHead"), 2)
+			if len(rhs) == 0 {
 				c.viol("revert-compare", "revertTask", p.Pos(fnPos(rt)), "revertTask does not call revertHead")
 			} else {
-				d := p.mustHoldAt(rh.Instr)
-				ok, miss := everyDisjunctHas(d, []string{"^!", "Number <= lastPossiblyValidHeight"}, []string{"^!", "Hash == ", "Hash)"})
-				c.check(ok, "revert-compare", "revertTask → revertHead", p.Pos(rh.Pos()), "a block at or below the last possibly valid height is reverted only if its hash differs from the source's", "a local block at or below lastPossiblyValidHeight can be reverted without having been compared with the source: "+miss)
+				ok, miss, pos := true, "", p.Pos(rhs[0].Site.Pos())
+				for _, ds := range rhs {
+					o, m := everyDisjunctHas(p.mustHoldDeep(ds), []string{"^!", "Number <= lastPossiblyValidHeight"}, []string{"^!", "Hash == ", "Hash)"})
+					if !o {
+						ok, miss, pos = false, m, p.Pos(ds.Site.Pos())
+					}
+				}
+				c.check(ok, "revert-compare", "revertTask → revertHead", pos, "a block at or below the last possibly valid height is reverted only if its hash differs from the source's", "a local block at or below lastPossiblyValidHeight can be reverted without having been compared with the source: "+miss)
 			}
 		} else {
 			c.und("revert-compare", "revertTask", "", "anchor not found")
@@ -420,8 +430,8 @@ func c02SuccessionFirst(c *Ctx, rule string) {
 			}
 			k++
 			d := p.mustHoldAt(ret.Ret)
-			okNum, m1 := everyDisjunctHas(d, []string{"^!", "#0 + 1) | 0) != block.Header.Number)"}, []string{"#0 + 1) | 0) == block.Header.Number)"},
-				[]string{"^!", "block.Header.Number != φ(", "#0 + 1) | 0)"}, []string{"block.Header.Number == φ(", "#0 + 1) | 0)"})
+			// expected number = φ(<number read from the head through reader> + 1 | 0); any spelling of the comparison
+			okNum, m1 := everyDisjunctHas(d, []string{"φ((", "(reader)", " + 1) | 0) == block.Header.Number)"})
 			okPar, m2 := everyDisjunctHas(d, []string{"block.Header.ParentHash.Equal("}, []string{".Equal(block.Header.ParentHash)"})
 			c.check(okNum && okPar, rule, "verifyBlockSuccession accepts", p.Pos(posOf(ret.Ret, f)), "only a block numbered head+1 (0 on an empty chain) whose parent hash is the head's hash",
 				"a block that does not extend the head can pass the succession check (a stale or forged lower-numbered block is then judged by parent hash only — the syncer takes the mismatch for a reorg and reverts canonical blocks, or the block is stored below the head): "+m1+" "+m2)
